@@ -62,7 +62,7 @@ CFG = dict(
         }),
     # quick: 4 x 1300 histories x 40 ops (~1 s per shard)
     quick=[e1("hist", "c06", "debug", 2, 40), e1("hist", "c06", "release", 2, 40, salt=1)],
-    # thorough: 16 x 20000 histories x 80 ops; Miri: as many 30-op histories as fit the budget (~1 s per Table call)
+    # thorough: 16 x 20000 histories x 80 ops; Miri: as many 25-op histories as fit the budget (~1 s per Table call)
     thorough=[e1("hist", "c06", "debug", 8, 200), e1("hist", "c06", "release", 8, 200, salt=1),
-              e1("miri", "c06", "debug", 8, 120, flavor="miri", scale=0.0005, len=30, salt=2)],
+              e1("miri", "c06", "debug", 8, 90, flavor="miri", scale=0.0005, len=25, salt=2)],
 )
